@@ -1,0 +1,279 @@
+//go:build verif
+
+// Verification hooks (build tag "verif"). This file only adds code: it is not compiled unless the
+// tag is given, and nothing in the untagged build refers to it.
+
+package sugardb
+
+import (
+	"context"
+	"encoding/hex"
+	"fmt"
+	"math"
+	"math/big"
+	"net"
+	"sort"
+	"strings"
+	"sync"
+	"time"
+
+	"github.com/echovault/sugardb/internal"
+	"github.com/echovault/sugardb/internal/clock"
+	"github.com/echovault/sugardb/internal/modules/set"
+	"github.com/echovault/sugardb/internal/modules/sorted_set"
+)
+
+// VerifClock is a virtual clock that only moves when Advance is called.
+type VerifClock struct {
+	mu  sync.Mutex
+	now time.Time
+}
+
+func NewVerifClock(unixMilli int64) *VerifClock {
+	return &VerifClock{now: time.UnixMilli(unixMilli)}
+}
+
+func (c *VerifClock) Now() time.Time {
+	c.mu.Lock()
+	defer c.mu.Unlock()
+	return c.now
+}
+
+func (c *VerifClock) After(d time.Duration) <-chan time.Time {
+	return time.After(d)
+}
+
+func (c *VerifClock) Advance(d time.Duration) {
+	c.mu.Lock()
+	defer c.mu.Unlock()
+	c.now = c.now.Add(d)
+}
+
+var _ clock.Clock = (*VerifClock)(nil)
+
+// WithVerifClock installs the given clock before the engines are built.
+func WithVerifClock(c clock.Clock) func(sugarDB *SugarDB) {
+	return func(sugarDB *SugarDB) {
+		sugarDB.clock = c
+	}
+}
+
+type verifAddr struct{}
+
+func (verifAddr) Network() string { return "verif" }
+func (verifAddr) String() string  { return "verif" }
+
+// verifConn is a net.Conn that goes nowhere; it only provides an identity for a connection.
+type verifConn struct {
+	mu  sync.Mutex
+	out []byte
+}
+
+func (c *verifConn) Read(b []byte) (int, error) { select {} }
+func (c *verifConn) Write(b []byte) (int, error) {
+	c.mu.Lock()
+	defer c.mu.Unlock()
+	c.out = append(c.out, b...)
+	return len(b), nil
+}
+func (c *verifConn) Close() error                       { return nil }
+func (c *verifConn) LocalAddr() net.Addr                { return verifAddr{} }
+func (c *verifConn) RemoteAddr() net.Addr               { return verifAddr{} }
+func (c *verifConn) SetDeadline(t time.Time) error      { return nil }
+func (c *verifConn) SetReadDeadline(t time.Time) error  { return nil }
+func (c *verifConn) SetWriteDeadline(t time.Time) error { return nil }
+
+// VerifTake returns and clears what has been written to a connection made by VerifNewConn.
+func VerifTake(conn *net.Conn) []byte {
+	c, ok := (*conn).(*verifConn)
+	if !ok {
+		return nil
+	}
+	c.mu.Lock()
+	defer c.mu.Unlock()
+	out := c.out
+	c.out = nil
+	return out
+}
+
+// VerifNewConn registers a connection exactly as handleConnection does, without a socket.
+func (server *SugarDB) VerifNewConn() *net.Conn {
+	var conn net.Conn = &verifConn{}
+	if server.acl != nil {
+		server.acl.RegisterConnection(&conn)
+	}
+	cid := server.connId.Add(1)
+	server.connInfo.mut.Lock()
+	server.connInfo.tcpClients[&conn] = internal.ConnectionInfo{Id: cid, Name: "", Protocol: 2, Database: 0}
+	server.connInfo.mut.Unlock()
+	return &conn
+}
+
+// VerifHandle runs one raw command through handleCommand. A nil conn is the embedded caller.
+// A panic in the handler is recovered and reported.
+func (server *SugarDB) VerifHandle(conn *net.Conn, raw []byte) (res []byte, err error, panicked string) {
+	defer func() {
+		if r := recover(); r != nil {
+			panicked = fmt.Sprintf("%v", r)
+		}
+	}()
+	if conn == nil {
+		res, err = server.handleCommand(server.context, raw, nil, false, true)
+		return
+	}
+	res, err = server.handleCommand(server.context, raw, conn, false, false)
+	return
+}
+
+// VerifConnDatabase reports the database selected by a connection (nil: the embedded caller).
+func (server *SugarDB) VerifConnDatabase(conn *net.Conn) int {
+	server.connInfo.mut.RLock()
+	defer server.connInfo.mut.RUnlock()
+	if conn == nil {
+		return server.connInfo.embedded.Database
+	}
+	return server.connInfo.tcpClients[conn].Database
+}
+
+func verifRat(f float64) string {
+	switch {
+	case math.IsNaN(f):
+		return "nan"
+	case math.IsInf(f, 1):
+		return "inf"
+	case math.IsInf(f, -1):
+		return "-inf"
+	}
+	r := new(big.Rat)
+	r.SetFloat64(f)
+	if r.IsInt() {
+		return r.Num().String() + "/1"
+	}
+	return r.String()
+}
+
+func verifHex(s string) string { return hex.EncodeToString([]byte(s)) }
+
+func verifScalar(v interface{}) string {
+	switch x := v.(type) {
+	case nil:
+		return "N"
+	case string:
+		return "s" + verifHex(x)
+	case int:
+		return fmt.Sprintf("i%d", x)
+	case int64:
+		return fmt.Sprintf("i%d", x)
+	case float64:
+		return "f" + verifRat(x)
+	}
+	return fmt.Sprintf("?%T", v)
+}
+
+// VerifValue renders a stored value canonically.
+func VerifValue(v interface{}) string {
+	switch x := v.(type) {
+	case []string:
+		parts := make([]string, len(x))
+		for i, e := range x {
+			parts[i] = verifHex(e)
+		}
+		return "l[" + strings.Join(parts, ",") + "]"
+	case map[string]interface{}:
+		fields := make([]string, 0, len(x))
+		for f := range x {
+			fields = append(fields, f)
+		}
+		sort.Strings(fields)
+		parts := make([]string, len(fields))
+		for i, f := range fields {
+			parts[i] = verifHex(f) + ":" + verifScalar(x[f])
+		}
+		return "h{" + strings.Join(parts, ",") + "}"
+	case *set.Set:
+		if x == nil {
+			return "S{nil}"
+		}
+		members := x.GetAll()
+		sort.Strings(members)
+		parts := make([]string, len(members))
+		for i, m := range members {
+			parts[i] = verifHex(m)
+		}
+		return "S{" + strings.Join(parts, ",") + "}"
+	case *sorted_set.SortedSet:
+		if x == nil {
+			return "z{nil}"
+		}
+		members := x.GetAll()
+		sort.Slice(members, func(i, j int) bool { return members[i].Value < members[j].Value })
+		parts := make([]string, len(members))
+		for i, m := range members {
+			parts[i] = verifHex(string(m.Value)) + ":" + verifRat(float64(m.Score))
+		}
+		return "z{" + strings.Join(parts, ",") + "}"
+	}
+	return verifScalar(v)
+}
+
+// VerifDigest renders the whole keyspace canonically: databases (including empty ones that exist),
+// keys, values, deadlines (unix ms, 0 = none), the volatile-key index and the memory figure.
+func (server *SugarDB) VerifDigest() string {
+	server.storeLock.RLock()
+	defer server.storeLock.RUnlock()
+	dbs := make([]int, 0, len(server.store))
+	for db := range server.store {
+		dbs = append(dbs, db)
+	}
+	sort.Ints(dbs)
+	var sb strings.Builder
+	fmt.Fprintf(&sb, "mem=%d", server.memUsed)
+	for _, db := range dbs {
+		keys := make([]string, 0, len(server.store[db]))
+		for k := range server.store[db] {
+			keys = append(keys, k)
+		}
+		sort.Strings(keys)
+		fmt.Fprintf(&sb, " db%d{", db)
+		for i, k := range keys {
+			if i > 0 {
+				sb.WriteString(" ")
+			}
+			e := server.store[db][k]
+			var ms int64
+			if e.ExpireAt != (time.Time{}) {
+				ms = e.ExpireAt.UnixMilli()
+			}
+			fmt.Fprintf(&sb, "%s=%s@%d", verifHex(k), VerifValue(e.Value), ms)
+		}
+		sb.WriteString("}")
+		server.keysWithExpiry.rwMutex.RLock()
+		vol := append([]string{}, server.keysWithExpiry.keys[db]...)
+		server.keysWithExpiry.rwMutex.RUnlock()
+		parts := make([]string, len(vol))
+		for i, k := range vol {
+			parts[i] = verifHex(k)
+		}
+		fmt.Fprintf(&sb, "v[%s]", strings.Join(parts, ","))
+	}
+	return sb.String()
+}
+
+// VerifSweep runs one round of the background expiry sampler for one database, synchronously.
+func (server *SugarDB) VerifSweep(database int) (err error, panicked string) {
+	defer func() {
+		if r := recover(); r != nil {
+			panicked = fmt.Sprintf("%v", r)
+		}
+	}()
+	ctx := context.WithValue(context.Background(), "Database", database)
+	err = server.evictKeysWithExpiredTTL(ctx)
+	return
+}
+
+// VerifMemUsed returns the memory figure used for max-memory decisions.
+func (server *SugarDB) VerifMemUsed() int64 {
+	server.storeLock.RLock()
+	defer server.storeLock.RUnlock()
+	return server.memUsed
+}
